@@ -28,6 +28,7 @@ POSITIONS = [
     ("line-input", "sz", "LINE INPUT {v}"),
     ("subscript", "na", "Y( {v} ) = 1"),
     ("print", "nsaz", "PRINT {v}"),
+    ("print-neg", "na", "PRINT - {v} ; NOT {v}"),
     ("device", "na", "SOUND {v} , 1"),
     ("device-str", "sz", "PLAY {v}"),
     ("for", "n", "FOR {v} = 1 TO 2 : NEXT {v}"),
@@ -63,7 +64,7 @@ def gen(run):
                 stmt = tpl.format(**fill)
                 dim_opts = [None]
                 if kind in "az":
-                    bounds = {1: ["3", "&H4"], 2: ["2,3"], 3: ["1,2,3"]}[nd]
+                    bounds = {1: ["3", "&H4", "0", "&H0"], 2: ["2,3", "2,0", "0,3"], 3: ["1,2,3", "4,0,&H0"]}[nd]
                     dim_opts += bounds
                 elif kind == "s":
                     dim_opts += ["scalar"]
@@ -465,6 +466,52 @@ def judge_library(text, storage):
     return v
 
 
+def judge_cli_sizes(scratch):
+    """decb_to_b09 -s N: every string of the program is declared STRING[N] for N over the boundary values of the option"""
+    import importlib
+    import io
+    import os
+    import sys
+    m = importlib.import_module("coco.decb_to_b09")
+    d = os.path.join(scratch, "cli10")
+    os.makedirs(d, exist_ok=True)
+    text = '10 DIM M$(2)\n20 A$="X":B$=A$+STR$(1):M$(1)=B$:N$(2)=HEX$(3)\n'
+    v = []
+    n = 0
+    for size in (1, 31, 33, 80, 255, 256, 300, 1000, 32767):
+        for extra in ([], ["-D"], ["-l", "-z"]):
+            inp, outp = os.path.join(d, "prog.bas"), os.path.join(d, "prog.b09")
+            with open(inp, "w") as f:
+                f.write(text)
+            old = sys.stdout, sys.stderr
+            err = None
+            try:
+                sys.stdout, sys.stderr = io.StringIO(), io.StringIO()
+                try:
+                    m.start(["-s", str(size)] + extra + [inp, outp])
+                except SystemExit as e:
+                    err = f"SystemExit({e.code})"
+                except Exception as e:  # noqa
+                    err = type(e).__name__
+            finally:
+                sys.stdout, sys.stderr = old
+            n += 1
+            if err:
+                continue  # refusals / crashes are C15's business
+            out = open(outp, "r", newline="").read().replace("\r", "\n")
+            idx = [mm.start() for mm in re.finditer(r"(?im)^procedure\s", out)]
+            body = out[idx[-1]:] if idx else out
+            for nm in ("A$", "B$", "arr_M$", "arr_N$", "tmp_1$"):
+                mm = re.search(r"(?im)^\s*(?:\d+\s+)?dim\s+" + re.escape(nm) + r"(?:\([^)]*\))?\s*:\s*string\[(\d+)\]", body)
+                if nm == "tmp_1$" and nm not in body:
+                    continue
+                if not mm:
+                    v.append(("string-undeclared", f"decb_to_b09 -s {size} {' '.join(extra)}: {nm} has no STRING[{size}] declaration"))
+                elif int(mm.group(1)) != size:
+                    v.append(("string-size", f"decb_to_b09 -s {size} {' '.join(extra)}: {nm} is declared STRING[{mm.group(1)}], requested {size}"))
+    return n, v
+
+
 def run(run):
     run.rule = ("programs = position x kind x (DIMmed with 1-3 constant/hex bounds | not) x storage {32,80} x size map x initialize_vars, one variable under test each; "
                 "distinct = distinct abstract cases; non-trivial = accepted and parsed")
@@ -515,6 +562,13 @@ def run(run):
             n += 1
             for sym, detail in judge_library(text, storage):
                 run.violation(sym, {"library", "storage:%d" % storage}, {"library": True, "text": text, "storage": storage}, f"bundled procedures, storage={storage}: {detail}\nsource: {text!r}")
+    ncli, vcli = judge_cli_sizes(run.scratch_dir())
+    run.states += ncli
+    run.transitions += ncli
+    run.evaluations += ncli
+    n += ncli
+    for sym, detail in sorted(set(vcli)):
+        run.violation(sym, {"cli", "cli-size"}, {"cli": True}, detail)
     for name, text, opts, fl in EXTRA:
         for init in (False, True):
             o = dict(opts)
